@@ -40,7 +40,10 @@ MANIFEST = dict(
           "through sigdrv where blocks/segments and GOMAXPROCS produce the batches."),
     note=("Documented-semantics clause is covered only for commands with a TLA+ operator; rex, regex, eval functions and bin "
           "without span are bound metamorphically (expected = real single-batch run, every TLC-enumerated chunking must "
-          "reproduce it). Values are small integers/null; by-fields and aggregated fields are null-free (the statement is "
+          "reproduce it). Values are small integers/null plus one numeric field `f` that mixes integer and fractional values "
+          "(model: units of one half; real rows: int when whole, float otherwise; null-free, whole in the first rows and "
+          "fractional in later ones and vice versa), used by stats/streamstats sum, sort, where, eval, top and dedup; by-fields "
+          "and aggregated fields are null-free (the statement is "
           "silent on null groups); `top/rare limit=N`, multi-key sort and timechart/transaction are not modelled. The operational "
           "model has one upstream chain: parallel chains (SetupQueryParallelism, merger, fetchFromAnyStream) are run in-package "
           "with two synthetic streams for every TLC-enumerated assignment of rows to streams and end to end with GOMAXPROCS 2/4, "
@@ -54,6 +57,7 @@ HDIR = os.path.join(vlib.VERIF, "harness", "inpkg", PKG)
 HFILES = [os.path.join(HDIR, f) for f in ("zz_verif_pipeline_test.go", "zz_verif_pipelinex_test.go")]
 
 NULL = -1
+COLS = ["a", "b", "m", "f"]
 MCODE = {1: "1", 12: "1,2", 3: "3", 2: "2"}
 
 
@@ -98,7 +102,10 @@ def spl_of(chain):
         elif op == "sort":
             parts.append("sort %s%s%s" % ("%d " % c["lim"] if c["lim"] else "", "" if c["asc"] else "-", f(c["f"])))
         elif op == "where":
-            parts.append("where %s>%d" % (f(c["f"]), c["k"]))
+            if c["f"] == "f":      # f is modelled in units of 0.5
+                parts.append("where %s>%s" % (f(c["f"]), c["k"] / 2))
+            else:
+                parts.append("where %s>%d" % (f(c["f"]), c["k"]))
         elif op == "fields":
             parts.append("fields %s%s" % ("" if c["keep"] else "- ", ", ".join(f(x) for x in sorted(c["fs"]))))
         elif op == "rename":
@@ -147,9 +154,11 @@ def spl_of(chain):
 
 def kinds_after(chain):
     """value kind of every model field at the end of the chain: plain | m | mv | mvx | bin:<span> | abstract"""
-    k = {"a": "plain", "b": "plain", "m": "m"}
+    k = {"a": "plain", "b": "plain", "m": "m", "f": "half"}
     for c in chain:
         op = c["op"]
+        if op == "stats" and c["fn"] == "sum":
+            k["sm"] = "half" if k.get(c["f"]) == "half" else "plain"
         if op == "rename":
             if c["f"] in k:
                 k[c["g"]] = k.pop(c["f"])
@@ -162,9 +171,11 @@ def kinds_after(chain):
         elif op == "mvexpand":
             k[c["f"]] = "mvx"
         elif op == "eval":
-            k[c["g"]] = "plain"
+            e = c["e"]
+            srcs = [e.get("x"), e.get("y")] if e["t"] != "addk" else [e.get("x")]
+            k[c["g"]] = "half" if any(k.get(x) == "half" for x in srcs if x) else "plain"
         elif op == "streamstats":
-            k[c["g"]] = "plain"
+            k[c["g"]] = "half" if (c["fn"] == "sum" and k.get(c["f"]) == "half") else "plain"
     return k
 
 
@@ -181,10 +192,15 @@ def has_toprare(chain):
 SCALES = [(1, 2, 3), (1, 55, 950), (50, 60, 300), (7, 70, 7000), (2, 30, 31)]
 
 
+def half(v):
+    """model value in units of 0.5 -> what is ingested: an INTEGER when whole, a float otherwise"""
+    return v // 2 if v % 2 == 0 else v / 2
+
+
 def concrete_row(r, scale=None):
     """model input row -> list of JSON values for columns a, b, m"""
     a = r["a"] if scale is None else scale[r["a"] - 1]
-    return [a, None if r["b"] == NULL else r["b"], MCODE[r["m"]]]
+    return [a, None if r["b"] == NULL else r["b"], MCODE[r["m"]], half(r["f"])]
 
 
 def rank_pattern(table):
@@ -215,6 +231,8 @@ def norm_model_row(r, kinds):
             o[f] = float(s) if "," not in s else s
         elif kd == "mv":
             o[f] = [float(x) for x in MCODE[v].split(",")]
+        elif kd == "half":
+            o[f] = float(v) / 2
         elif kd.startswith("bin:"):
             sp = int(kd[4:])
             o[f] = "%d-%d" % (v, v + sp)
@@ -516,7 +534,7 @@ def cases_of_line(li, b, quick, rnd, max_per_line):
         for k in sz:
             batches.append(list(range(i, i + k)))
             i += k
-        cases.append({"id": "%d/%d" % (li, ci), "spl": spl, "cols": ["a", "b", "m"], "rows": rows, "streams": [batches],
+        cases.append({"id": "%d/%d" % (li, ci), "spl": spl, "cols": COLS, "rows": rows, "streams": [batches],
                       "eof_last": bool(e), "par": 1, "_sizes": sz})
     return cases
 
@@ -552,7 +570,7 @@ def par_cases_of_line(li, b, rnd, max_per_line):
                 bs.append(idx[p:p + n])
                 p += n
             streams.append(bs)
-        cases.append({"id": "%d/p%d" % (li, ai), "spl": spl, "cols": ["a", "b", "m"], "rows": rows, "streams": streams,
+        cases.append({"id": "%d/p%d" % (li, ai), "spl": spl, "cols": COLS, "rows": rows, "streams": streams,
                       "eof_last": bool(rnd.getrandbits(1)), "par": 2, "_sizes": [[len(x) for x in st] for st in streams]})
     return cases
 
@@ -665,7 +683,7 @@ def fn_level(chk, binary, sc, lines, quick, rnd):
             spl_of(chain), [concrete_row(x) for x in b["table"]], sz, " (last batch with io.EOF)" if e else "",
             json.dumps(got) if got is not None else st, (" [" + detail[:300] + "]") if detail else "",
             json.dumps(expect[:3])))
-        chk.violation(key, what, {"kind": "fn", "spl": spl_of(chain), "cols": ["a", "b", "m"],
+        chk.violation(key, what, {"kind": "fn", "spl": spl_of(chain), "cols": COLS,
                                   "rows": [concrete_row(x) for x in b["table"]], "sizes": sz, "eof_last": e,
                                   "expect": expect, "got": got, "single_batch_ok": single_ok})
     chk.cov["fn"] = {"chunkings_run": len(cases), "lines": len(by_line), "violating_keys": reported}
@@ -723,7 +741,7 @@ def meta_level(chk, binary, sc, lines, quick, rnd):
                     batches.append(list(range(i, i + k)))
                     i += k
                 cid = "m%d/%d/%d" % (si, ti, ci)
-                cases.append({"id": cid, "spl": spl, "cols": ["a", "b", "m"], "rows": rows, "streams": [batches], "eof_last": bool(e), "par": 1})
+                cases.append({"id": cid, "spl": spl, "cols": COLS, "rows": rows, "streams": [batches], "eof_last": bool(e), "par": 1})
                 meta[cid] = (si, ti, sz, e)
     res = run_cases(binary, sc, cases)
     groups = {}
@@ -778,11 +796,11 @@ def special_level(chk, binary, sc):
             "stats count as cnt by a", "stats count as cnt", "stats sum(a) as sm", "eval d=a+1 | stats count as cnt"]
     cases = []
     for i, s in enumerate(spls):
-        cases.append({"id": "z%d/none" % i, "spl": s, "cols": ["a", "b", "m"], "rows": [], "streams": [[]], "eof_last": False, "par": 1})
-        cases.append({"id": "z%d/empty" % i, "spl": s, "cols": ["a", "b", "m"], "rows": [], "streams": [[[]]], "eof_last": False, "par": 1})
-    rows = [[1, 1, "1"], [2, 1, "1"], [1, 1, "1"], [3, 1, "1"], [2, 1, "1"], [1, 1, "1"]]
-    cases.append({"id": "top1", "spl": "top limit=1 a", "cols": ["a", "b", "m"], "rows": rows, "streams": [[list(range(6))]], "eof_last": False, "par": 1})
-    cases.append({"id": "rare1", "spl": "rare limit=1 a", "cols": ["a", "b", "m"], "rows": rows, "streams": [[list(range(6))]], "eof_last": False, "par": 1})
+        cases.append({"id": "z%d/none" % i, "spl": s, "cols": COLS, "rows": [], "streams": [[]], "eof_last": False, "par": 1})
+        cases.append({"id": "z%d/empty" % i, "spl": s, "cols": COLS, "rows": [], "streams": [[[]]], "eof_last": False, "par": 1})
+    rows = [[1, 1, "1", 1], [2, 1, "1", 2], [1, 1, "1", 1], [3, 1, "1", 3], [2, 1, "1", 2], [1, 1, "1", 1]]
+    cases.append({"id": "top1", "spl": "top limit=1 a", "cols": COLS, "rows": rows, "streams": [[list(range(6))]], "eof_last": False, "par": 1})
+    cases.append({"id": "rare1", "spl": "rare limit=1 a", "cols": COLS, "rows": rows, "streams": [[list(range(6))]], "eof_last": False, "par": 1})
     res = run_cases(binary, sc, cases, shards=1)
     for i, s in enumerate(spls):
         a, b = res.get("z%d/none" % i, {}), res.get("z%d/empty" % i, {})
@@ -824,8 +842,8 @@ def e2e_case(binary, case):
         for bi, k in enumerate(case["sizes"]):
             body = ""
             for j in range(i, i + k):
-                a, b, m = case["rows"][j]
-                doc = {"rid": j, "timestamp": T0 + (n - j) * 1000, "a": a, "m": m}
+                a, b, m, fv = case["rows"][j]
+                doc = {"rid": j, "timestamp": T0 + (n - j) * 1000, "a": a, "m": m, "f": fv}
                 if b is not None:
                     doc["b"] = b
                 body += json.dumps({"index": {"_index": "c06"}}) + "\n" + json.dumps(doc) + "\n"
@@ -1071,7 +1089,7 @@ def replay(chk, path):
                     i += k
                 variants.append(("batches of %s" % rp["sizes"], bs))
             variants.append(("one row per batch", [[i] for i in range(n)]))
-            cases = [{"id": nm, "spl": rp["spl"], "cols": ["a", "b", "m"], "rows": rows, "streams": [bs],
+            cases = [{"id": nm, "spl": rp["spl"], "cols": COLS, "rows": rows, "streams": [bs],
                       "eof_last": bool(rp.get("eof_last")), "par": 1} for nm, bs in variants]
             res = run_cases(binary, sc, cases, shards=1)
             for nm, _ in variants:
